@@ -1054,7 +1054,7 @@ func stateChangeOf(v ssa.Value, prev, next ssa.Value) bool {
 // ---------- R5 ----------
 
 func c05CloseOrder(r *Run) {
-	const rule = "C05-R5-close-order"
+	rule := r.aliased("C05-R5-close-order")
 	w := r.W
 	closeFn := w.Fn("hsms", "connection.Close")
 	reqClose := w.Fn("hsms", "supervisor.requestClose")
